@@ -434,6 +434,11 @@ var heapKind = "heap-soft"
 // softFired: the safety limit struck in this run.
 var softFired bool
 
+// SoftHeapFired reports whether the heap safety limit struck in the current run.
+//
+//go:norace
+func SoftHeapFired() bool { return softFired }
+
 // ProbeEnter/ProbeLeave mark the current task as being inside a region the
 // harness cares about (index 0..3); ProbeHit[j] counts switches between two
 // tasks that are both inside region j.
